@@ -1538,25 +1538,25 @@ func c07RefCountLifecycleCase(c *mon.Case) {
 				refs[key] = l[:len(l)-1]
 				last := len(refs[key]) == 0
 				call := c.Rec("d", "Release "+key, last)
-				if last {
-					w.mu.Lock()
-					w.removed[epochKey(key, w.epoch[key])] = call
-					w.mu.Unlock()
-				}
 				ref.Release()
 				hist += "Release(" + key + ") "
 				if last {
+					// the mark is taken after the removing call returned: an instance that enters live later was started after the removal
+					w.mu.Lock()
+					w.removed[epochKey(key, w.epoch[key])] = c.Stamp()
+					w.mu.Unlock()
 					checkCancelled(call, "the last Release of key "+key, key)
 				}
 			}
 		case k < 8:
 			call := c.Rec("d", "RemoveKey "+key, nil)
-			if present(key) {
+			wasPresent := present(key)
+			rc.RemoveKey(key)
+			if wasPresent {
 				w.mu.Lock()
-				w.removed[epochKey(key, w.epoch[key])] = call
+				w.removed[epochKey(key, w.epoch[key])] = c.Stamp()
 				w.mu.Unlock()
 			}
-			rc.RemoveKey(key)
 			refs[key] = nil
 			hist += "RemoveKey(" + key + ") "
 			checkCancelled(call, "RemoveKey("+key+")", key)
